@@ -71,6 +71,8 @@ type c20SyncChain struct {
 	q        int
 	spawned  int // processBlock callbacks that returned true so far
 	released int
+	// HasBlock(parent) answered true inside a processBlock callback, but no pm.insertBlock followed within 3 s
+	lostSpawns int
 }
 
 func newC20SyncChain(base uint32, async bool, q int) *c20SyncChain {
@@ -87,8 +89,16 @@ func (s *c20SyncChain) HasBlock(h common.Hash) bool {
 	s.mu.Lock()
 	defer s.mu.Unlock()
 	if tick && !s.async {
-		for s.finished < s.spawned {
-			s.cond.Wait()
+		// bounded: code that takes a block out of the cache without inserting it must not hang the harness
+		deadline := time.Now().Add(3 * time.Second)
+		for s.finished < s.spawned && time.Now().Before(deadline) {
+			s.mu.Unlock()
+			time.Sleep(100 * time.Microsecond)
+			s.mu.Lock()
+		}
+		if s.finished < s.spawned {
+			s.lostSpawns += s.spawned - s.finished
+			s.spawned = s.finished
 		}
 	}
 	_, ok := s.known[h]
@@ -328,10 +338,16 @@ func c20PMCase(seed int64, maxN int) (res c20PMOut) {
 		}
 		chain.mu.Lock()
 		spawnedAll := chain.spawned
-		for chain.entered < spawnedAll {
+		spawnDeadline := time.Now().Add(3 * time.Second)
+		for chain.entered < spawnedAll && time.Now().Before(spawnDeadline) {
 			chain.mu.Unlock()
 			time.Sleep(200 * time.Microsecond)
 			chain.mu.Lock()
+		}
+		if chain.entered < spawnedAll {
+			chain.lostSpawns += spawnedAll - chain.entered
+			chain.spawned = chain.entered
+			spawnedAll = chain.entered
 		}
 		chain.released = chain.entered
 		chain.cond.Broadcast()
@@ -506,6 +522,11 @@ func c20PMCase(seed int64, maxN int) (res c20PMOut) {
 	count(fmt.Sprintf("pm:ticks=%d", nTicks))
 	// direct oracle: same node as the in-order delivery
 	chain.mu.Lock()
+	if chain.lostSpawns > 0 {
+		chain.mu.Unlock()
+		fail("c20/timer-drops-block", fmt.Sprintf("the drain timer's callback found the parent of %d cached block(s) in the chain and took them out of the cache (returned true), but never handed them to pm.insertBlock", chain.lostSpawns))
+		chain.mu.Lock()
+	}
 	cur := chain.current.Height()
 	var missing []int
 	for k := 1; k <= n; k++ {
